@@ -216,12 +216,14 @@ pub trait Chargeable: field::Inputs + field::Witnesses + field::Policies {
         // execution required to validate transaction validity rules.
         let min_gas = self.min_gas(gas_costs, fee);
 
-        let total_used_gas = min_gas.saturating_add(used_gas);
+        // Saturating the gas would under-estimate the used fee and thereby increase the
+        // refund, so an overflow of the total used gas is reported as `None`.
+        let total_used_gas = min_gas.checked_add(used_gas)?;
         let tip = self.policies().get(PolicyType::Tip).unwrap_or(0);
         let used_fee = gas_to_fee(total_used_gas, gas_price, fee.gas_price_factor())
             .saturating_add(tip as u128);
 
-        // It is okay to saturate everywhere above because it only can decrease the value
+        // It is okay to saturate the fee above because it only can decrease the value
         // of `refund`. But here, because we need to return the amount we
         // want to refund, we need to handle the overflow caused by the price.
         let used_fee: u64 = used_fee.try_into().ok()?;
